@@ -29,7 +29,12 @@ demo = (out / "demo.rs").read_text()
 head = "\n".join(demo.splitlines()[:15])
 m = re.search(r"`((?:[A-Za-z0-9_]+/)*tests/[A-Za-z0-9_]+\.rs)`", head)
 m2 = re.search(r"`mod tests` of `?([^\s`]+\.rs)", head)
-if m:
+if os.environ.get("DEMO_APPEND_MOD"):
+    # the demo is a whole `#[cfg(test)] mod ... { }` appended at the end of the named source file
+    place = ("append-mod", os.environ["DEMO_APPEND_MOD"])
+    pkg = "bevy_replicon_example_backend" if place[1].startswith("bevy_replicon_example_backend/") else "bevy_replicon"
+    test_cmd = f"cargo test --offline -p {pkg} --lib {os.environ.get('DEMO_FILTER', '')}"
+elif m:
     place = ("file", m.group(1))
     pkg = "bevy_replicon_example_backend" if m.group(1).startswith("bevy_replicon_example_backend/") else "bevy_replicon"
     test_cmd = f"cargo test --offline -p {pkg} --test {Path(m.group(1)).stem}"
@@ -46,6 +51,9 @@ else:
 def put_demo():
     if place[0] == "file":
         (wt / place[1]).write_text(demo)
+    elif place[0] == "append-mod":
+        f = wt / place[1]
+        f.write_text(f.read_text().rstrip() + "\n\n" + demo + "\n")
     else:
         f = wt / place[1]
         s = f.read_text().rstrip()
@@ -77,9 +85,10 @@ if ok:
     dest.mkdir(parents=True, exist_ok=True)
     shutil.copy(out / "patch.diff", dest / "patch.diff")
     shutil.copy(out / "demo.rs", dest / "demo.rs")
-    if (out / "notes.txt").exists():
-        shutil.copy(out / "notes.txt", dest / "notes.txt")
-    notes = (out / "notes.txt").read_text() if (out / "notes.txt").exists() else ""
+    nf = next((out / n for n in ("notes.txt", "notes.md") if (out / n).exists()), None)
+    if nf:
+        shutil.copy(nf, dest / "notes.txt")
+    notes = nf.read_text() if nf else ""
     meta = {"id": sid, "breaks": props, "author": "independent sub-agent given only the property text and a scratch worktree",
             "needs_to_manifest": notes[:1200], "demo_placement": place[1], "demo_cmd": test_cmd,
             "confirmed_in_scratch_worktree": res, "base_commit": subprocess.run(["git", "-C", str(wt), "rev-parse", "--short", "HEAD"], stdout=subprocess.PIPE, text=True).stdout.strip()}
